@@ -2,6 +2,11 @@
 // The reader is a harness-side callback (symbolic stream, arbitrary legal short reads).
 #include "common.hpp"
 #include <tao/pegtl/buffer_input.hpp>
+#include <tao/pegtl/contrib/uint8.hpp>
+#include <tao/pegtl/contrib/uint16.hpp>
+#include <tao/pegtl/contrib/uint32.hpp>
+#include <tao/pegtl/contrib/utf16.hpp>
+#include <tao/pegtl/contrib/utf32.hpp>
 #include <stdexcept>
 #include <string>
 using namespace tao::pegtl;
